@@ -22,11 +22,21 @@ func verifAssert(label string, c bool) {
 // touch the hub's own fields and wake waiting goroutines; the commit-state functions of embedded/store never read hub
 // state except through the results of Status()/WaitFor(), which are arbitrary here. ASSUMED frames (never checked).
 
+// (con-c07b, additive) Status reports the watermark of an open hub.
 //@ func (*WatchersHub).Status
 //@   assigns internal
+//@   ensures c07b_val: r2 == nil ==> r0 == w.doneUpto
+//@   ensures c07b_open: !w.closed ==> r2 == nil
 
+// (con-c07b) RecedeTo is modelled at value level for the watermark (C02: the durable-precommit watermark never stays
+// above the precommitted id after a discard): it writes its receiver (frame widened from `internal` to `internal, w`;
+// only caller: DiscardPrecommittedTxsSince). Checked as a unit of embedded/watchers.
 //@ func (*WatchersHub).RecedeTo
-//@   assigns internal
+//@   assigns internal, w
+//@   ensures c07b_ok: !old(w.closed) && old(w.doneUpto) >= t ==> r0 == nil
+//@   ensures c07b_rec: r0 == nil ==> w.doneUpto == t
+//@   ensures c07b_keep: r0 != nil ==> w.doneUpto == old(w.doneUpto)
+//@   ensures c07b_closed: w.closed == old(w.closed)
 
 //@ func (*WatchersHub).DoneUpto
 //@   assigns internal
